@@ -122,7 +122,7 @@ def stream_rules_ast(ctx: Ctx) -> Stream:
 	for path, func in [('data/syntax/py_rules.py', 'py_rules'), ('data/syntax/gram_rules.py', 'gram_rules')]:
 		shipped.append(gen_rules.literal_of_rule_module(os.path.join(REPO, path), func))
 	trees: list[tuple[str, Any]] = [('shipped', t) for t in shipped]
-	for i in range(ctx.scale(260, 4000)):
+	for i in range(ctx.scale(260, 2800)):
 		t = gen.grammar(rng.randint(1, 6), rng.randint(0, 3), bare_groups=rng.random() < 0.4)
 		kind = 'well-shaped'
 		if rng.random() < 0.4:
@@ -179,7 +179,7 @@ def stream_rules_text(ctx: Ctx) -> Stream:
 	for name in ['gram.lark', 'py_gram.lark']:
 		with open(os.path.join(REPO, 'data/syntax', name), 'rb') as f:
 			texts.append(('shipped', f.read().decode('utf-8'), None))
-	for i in range(ctx.scale(150, 2500)):
+	for i in range(ctx.scale(150, 1600)):
 		bare = rng.random() < 0.25
 		t = gen.grammar(rng.randint(1, 5), rng.randint(0, 3), bare_groups=bare)
 		k, rules = real_from_ast(t)
@@ -236,6 +236,8 @@ def rt_key(rules: Any) -> str:
 	if any(has_nested_optional(p) for p in pats):
 		return 'text-rt:optional-group-edged-by-optional-groups'
 	terms = string_terminals(rules)
+	if any(len(s) >= 2 and any(c in s for c in '\t\n\r\f') for s in terms):
+		return 'text-rt:terminal-with-raw-control-character'
 	if any(s.endswith('/') or s.startswith('/') for s in terms if s not in ('/', '//')):
 		return 'text-rt:terminal-with-slash-at-its-edge'
 	if any(s.endswith('\\') for s in terms):
@@ -264,7 +266,7 @@ def search_round_trip(ctx: Ctx) -> SearchResult:
 				with open(os.path.join(d, fn), encoding='utf-8') as f:
 					for t in json.load(f).get('trees', []):
 						trees.append(_tuplify(t))
-	for i in range(ctx.scale(600, 12000)):
+	for i in range(ctx.scale(600, 7000)):
 		trees.append(gen.grammar(rng.randint(1, 6), rng.randint(0, 3), bare_groups=rng.random() < 0.12))
 	for t in trees:
 		k, rules = real_from_ast(t)
@@ -274,6 +276,14 @@ def search_round_trip(ctx: Ctx) -> SearchResult:
 		res.cases += 1
 		want = gramlib.rules_show(rules)
 		seen.add(want)
+		# the rule loader against an independent walk of the tuple tree (a loader regression that printing and re-loading reproduce
+		# consistently would cancel out of the round trip)
+		spec = gramlib.tree_show(t)
+		if want != spec:
+			hist['from-ast:differs-from-tree'] += 1
+			res.findings.append(Finding(key='from-ast:differs-from-tree', what=f'Rules.from_ast builds a rule set that is not the one the tuple tree describes; printout {rules.pretty()!r}',
+				replay={'tree': t, 'expected': spec, 'got': want}))
+			continue
 		text = ''
 		try:
 			text = rules.pretty() + '\n'
@@ -375,6 +385,19 @@ def search_fixed_points(ctx: Ctx) -> SearchResult:
 			return f'regexp terminals differ: {ra} vs {rb}'
 		return None
 
+	def independent(lark: str, func) -> str | None:
+		# our own reading of the grammar text (gramlib.read_lark, no tranp code) vs the rule module that is checked in
+		a = gramlib.lark_show(gramlib.read_lark(read(lark))).replace(hx("\\'"), hx("'"))
+		b = gramlib.rules_show(func())
+		if a == b:
+			return None
+		for x, y in zip(a.split(';'), b.split(';')):
+			if x != y:
+				return f'rule differs from the grammar text: text says {x[:400]}, module has {y[:400]}'
+		return 'rule count differs from the grammar text'
+
+	law('py_rules() is what py_gram.lark says (independent reading of the text)', 'fixed:py-module-vs-text', lambda: independent('py_gram.lark', py_rules))
+	law('gram_rules() is what gram.lark says (independent reading of the text)', 'fixed:gram-module-vs-text', lambda: independent('gram.lark', gram_rules))
 	law('gram.lark parses to gram_rules()', 'fixed:gram-self', fixed_gram)
 	law('py_rules.py == render(compile(py_gram.lark))', 'fixed:py-module-text', lambda: module_text('py_gram.lark', 'py_rules.py', False))
 	law('gram_rules.py (without docstring) == render(compile(gram.lark))', 'fixed:gram-module-text', lambda: module_text('gram.lark', 'gram_rules.py', True))
@@ -386,9 +409,9 @@ def search_fixed_points(ctx: Ctx) -> SearchResult:
 	py_module = py_rules()
 	pw = c11.PyWorld(rng)
 	tk = Tokenizer()
-	sentences = c11.gen_sentences(pw, ctx.scale(60, 800), 60, 3)
+	sentences = c11.gen_sentences(pw, ctx.scale(60, 450), 60, 3)
 	texts = [t for _, _, t in sentences]
-	for _, toks, _ in sentences[:ctx.scale(40, 500)]:
+	for _, toks, _ in sentences[:ctx.scale(40, 300)]:
 		mt, _ = gramlib.mutate_tokens(toks, rng, pw.vocabulary)
 		if c11.paren_depth(mt) <= 4:
 			texts.append(gramlib.render_tokens(mt, rng, 0.3))
@@ -404,7 +427,7 @@ def search_fixed_points(ctx: Ctx) -> SearchResult:
 		law('py: compiled vs checked-in rules on a sentence', 'accept-same:py', same)
 	gram_direct = Rules.from_ast(compile_lark('gram.lark').simplify())
 	gen = gramlib.RuleGen(rng)
-	for _ in range(ctx.scale(60, 800)):
+	for _ in range(ctx.scale(60, 450)):
 		k, rules = real_from_ast(gen.grammar(rng.randint(1, 4), rng.randint(0, 2), bare_groups=rng.random() < 0.2))
 		if k != 'ok':
 			continue
